@@ -521,7 +521,7 @@ func (c *Chunker) buildSections(doc *model.Document) []*Section {
 	var preambleStartPage, preambleEndPage int
 
 	for pageNum, page := range doc.Pages {
-		pageIndex := pageNum + 1
+		pageIndex := pageNumberOf(page, pageNum)
 
 		if page.Layout == nil {
 			continue
@@ -804,6 +804,11 @@ func (c *Chunker) splitSectionByParagraphs(section *Section, chunkIndex *int, do
 				prevChunk.Metadata.WordCount = countWords(prevChunk.Text)
 				prevChunk.Metadata.EstimatedTokens = len(prevChunk.Text) / 4
 				prevChunk.TextWithContext = prevChunk.generateContextualText()
+				for _, elem := range currentElements {
+					if elem.Page > prevChunk.Metadata.PageEnd {
+						prevChunk.Metadata.PageEnd = elem.Page
+					}
+				}
 				currentText.Reset()
 				currentElements = nil
 				elementTypes = nil
@@ -829,6 +834,7 @@ func (c *Chunker) splitSectionByParagraphs(section *Section, chunkIndex *int, do
 
 		chunk := c.createChunk(text, section, *chunkIndex, docTitle, elementTypes, hasTable, hasList, hasImage, bbox)
 		chunk.Metadata.Level = ChunkLevelParagraph
+		setPageRange(chunk, currentElements)
 		chunks = append(chunks, chunk)
 		*chunkIndex++
 
@@ -917,6 +923,7 @@ func (c *Chunker) splitSectionByParagraphs(section *Section, chunkIndex *int, do
 				}
 				chunk := c.createChunk(atomicStr, section, *chunkIndex, docTitle, atomicTypes, atomicHasTable, atomicHasList, atomicHasImage, bbox)
 				chunk.Metadata.Level = ChunkLevelParagraph
+				setPageRange(chunk, atomicElements)
 				chunks = append(chunks, chunk)
 				*chunkIndex++
 			}
@@ -1035,6 +1042,7 @@ func (c *Chunker) splitBySentences(text string, section *Section, chunkIndex *in
 			chunk := c.createChunk(chunkText, section, *chunkIndex, docTitle,
 				[]string{elem.Type.String()}, false, false, false, &elem.BBox)
 			chunk.Metadata.Level = ChunkLevelSentence
+			setPageRange(chunk, []ContentElement{elem})
 			chunks = append(chunks, chunk)
 			*chunkIndex++
 			currentText.Reset()
@@ -1052,6 +1060,7 @@ func (c *Chunker) splitBySentences(text string, section *Section, chunkIndex *in
 		chunk := c.createChunk(chunkText, section, *chunkIndex, docTitle,
 			[]string{elem.Type.String()}, false, false, false, &elem.BBox)
 		chunk.Metadata.Level = ChunkLevelSentence
+		setPageRange(chunk, []ContentElement{elem})
 		chunks = append(chunks, chunk)
 		*chunkIndex++
 	}
@@ -1099,7 +1108,7 @@ func (c *Chunker) chunkByParagraphs(doc *model.Document, chunkIndex *int) []*Chu
 
 	// Collect all paragraphs
 	for pageNum, page := range doc.Pages {
-		pageIndex := pageNum + 1
+		pageIndex := pageNumberOf(page, pageNum)
 		if page.Layout == nil {
 			continue
 		}
@@ -1172,6 +1181,27 @@ func (c *Chunker) calculateStats(chunks []*Chunk) ChunkStats {
 }
 
 // Helper functions
+
+// pageNumberOf returns the page's own number, or its 1-indexed position in the
+// document when the page has not been numbered
+func pageNumberOf(page *model.Page, index int) int {
+	if page.Number > 0 {
+		return page.Number
+	}
+	return index + 1
+}
+
+// setPageRange narrows a chunk's page range to the pages of the elements it holds
+func setPageRange(chunk *Chunk, elements []ContentElement) {
+	for i, elem := range elements {
+		if i == 0 || elem.Page < chunk.Metadata.PageStart {
+			chunk.Metadata.PageStart = elem.Page
+		}
+		if i == 0 || elem.Page > chunk.Metadata.PageEnd {
+			chunk.Metadata.PageEnd = elem.Page
+		}
+	}
+}
 
 // countWords counts the number of words in text
 func countWords(text string) int {
